@@ -6,6 +6,7 @@
 import NdnVerif.Driver.Common
 import NdnVerif.C01.Fw
 import NdnVerif.C01.FwSpec
+import NdnVerif.C01.FwMulti
 namespace Ndn.Fw.Drv
 open Ndn Ndn.Driver Ndn.Fw
 
@@ -51,12 +52,26 @@ def kvNat (parts : List String) (key : String) : Nat :=
   | some p => ((p.drop (key.length + 1)).toNat?).getD 0
   | none => 0
 
-/-- "<sends> | <counters>" → the sends and the pit / cs sizes (none if malformed) -/
+/-- "<sends> | <counters>[ | <hash oracle>]" → the sends and the pit / cs sizes (none if malformed) -/
 def parseGot (got : String) : Option (List PSend × Nat × Nat) :=
   match got.splitOn " | " with
-  | [s, c] =>
+  | s :: c :: _ =>
     let parts := c.splitOn " "
     (if s.isEmpty then some [] else (s.splitOn " ; ").mapM parseSend).map fun l => (l, kvNat parts "pit", kvNat parts "cs")
+  | _ => none
+
+/-- the name-hash oracle of multi-thread histories: (Hash mod n, PrefixHash[i] mod n for i = 0..len) -/
+def parseOracle (got : String) : Option (String × Nat × List Nat) :=
+  match got.splitOn " | " with
+  | [_, _, o] =>
+    match o.splitOn " " with
+    | [a, b] =>
+      if a.startsWith "th=" && b.startsWith "ph=" then
+        match (a.drop 3).toNat?, ((b.drop 3).toString.splitOn ",").mapM (·.toNat?) with
+        | some th, some ph => some (o, th, ph)
+        | _, _ => none
+      else none
+    | _ => none
   | _ => none
 
 /-! ### rendering of the model's output -/
@@ -72,9 +87,12 @@ def optStr : Option Nat → String
   | some n => toString n
 
 structure DrvSt where
+  /-- thread 0 -/
   m : St := {}
-  /-- label k ↦ model token (T<k> of the protocol, by first appearance) -/
-  labels : List Nat := []
+  /-- threads 1 … n-1 (multi-thread histories) -/
+  rest : List St := []
+  /-- label k ↦ (thread, model token) (T<k> of the protocol, by first appearance) -/
+  labels : List (Nat × Nat) := []
   /-- name text ↦ label most recently seen on an Interest send of the implementation -/
   lastTok : List (String × Nat) := []
   sp : Spec.SpSt := {}
@@ -82,38 +100,41 @@ structure DrvSt where
   /-- ingress through the real link service (dispatchInterest / dispatchData of fw/face) -/
   ls : Bool := false
 
-def labelOf (labels : List Nat) (t : Nat) : List Nat × Nat :=
+def labelOf (labels : List (Nat × Nat)) (t : Nat × Nat) : List (Nat × Nat) × Nat :=
   match labels.findIdx? (· == t) with
   | some k => (labels, k)
   | none => (labels ++ [t], labels.length)
 
-def renderSends (labels : List Nat) (l : List Send) : List Nat × List String :=
-  l.foldl (fun (acc : List Nat × List String) s =>
+/-- render the sends of thread `th` -/
+def renderSends (labels : List (Nat × Nat)) (th : Nat) (l : List Send) : List (Nat × Nat) × List String :=
+  l.foldl (fun (acc : List (Nat × Nat) × List String) s =>
     match s with
     | .interest f n hop (.mine t) =>
-      let (lb, k) := labelOf acc.1 t
+      let (lb, k) := labelOf acc.1 (th, t)
       (lb, acc.2 ++ [s!"I>{f} {n.toText} h={optStr hop} t=T{k}"])
     | .interest f n hop (.raw b) => (acc.1, acc.2 ++ [s!"I>{f} {n.toText} h={optStr hop} t={hexOrDash b}"])
     | .data f n c b => (acc.1, acc.2 ++ [s!"D>{f} {n.toText} c={c} t={hexOrDash b}"])) (labels, [])
 
-def counters (m : St) : String :=
-  s!"oi={m.nOutInterests} od={m.nOutData} si={m.nSatisfied} pit={m.pit.length} cs={m.cs.length}"
+def counters (ts : List St) : String :=
+  let sum (f : St → Nat) := ts.foldl (fun a s => a + f s) 0
+  s!"oi={sum (·.nOutInterests)} od={sum (·.nOutData)} si={sum (·.nSatisfied)} pit={sum (·.pit.length)} cs={sum (·.cs.length)}"
 
 def foreignBase : Nat := 1000000000000
 
-/-- Data token text → model token (none = unknown reference → "skip") -/
-def parseDTok (d : DrvSt) (s : String) : Option DTok :=
-  if s == "-" then some .none
+/-- Data token text → model token and the thread id the token names (none = unknown reference → "skip") -/
+def parseDTok (d : DrvSt) (s : String) : Option (DTok × Option Nat) :=
+  let ofLabel (k : Nat) : Option (DTok × Option Nat) := (d.labels[k]?).map fun p => (DTok.six p.2, some p.1)
+  if s == "-" then some (.none, none)
   else if s.startsWith "T" then
     match (s.drop 1).toNat? with
-    | some k => (d.labels[k]?).map DTok.six
+    | some k => ofLabel k
     | none => none
   else if s.startsWith "@" then
     match d.lastTok.find? (·.1 == (s.drop 1).toString) with
-    | some (_, k) => (d.labels[k]?).map DTok.six
+    | some (_, k) => ofLabel k
     | none => none
   else match bytesOfHex s with
-    | some b => if b.length == 6 then some (.six (foreignBase + beDec (b.drop 2))) else some (.other b)
+    | some b => if b.length == 6 then some (.six (foreignBase + beDec (b.drop 2)), some (beDec (b.take 2))) else some (.other b, none)
     | none => none
 
 /-- the Data token as the ledger sees it (labels resolved from the implementation's outputs) -/
@@ -157,18 +178,26 @@ def keepClause (pid : String) (f : SpecFail) : Bool := f.clause.startsWith pid
 /-- the step function of the executables; `pid` selects which property's clauses are reported -/
 def stepFw (pid : String) (d : DrvSt) (op : String) (got : String) : StepResult DrvSt :=
   let bad : StepResult DrvSt := { st := d, expected := some "bad-op" }
-  let cfg (m : St) (sp : Spec.SpSt) : StepResult DrvSt :=
-    { st := { d with m := m, sp := sp }, expected := some "ok" }
-  let newOp (a sv cap dnl : String) (ls : Bool) : StepResult DrvSt :=
+  let cfgAll (o : Op) : StepResult DrvSt :=
+    { st := { d with m := (step d.m o).1, rest := d.rest.map (fun s => (step s o).1), sp := Spec.cfgOp d.sp o },
+      expected := some "ok" }
+  let ts : List St := d.m :: d.rest
+  let newOp (a sv cap dnl : String) (ls : Bool) (n : Nat) : StepResult DrvSt :=
     match parseB a, parseB sv, cap.toNat?, dnl.toNat? with
     | some a, some sv, some cap, some dnl =>
-      { st := { m := { csAdmit := a, csServe := sv, csCap := cap, dnlLife := dnl * ms },
-                sp := { csAdmit := a, csServe := sv, dnlLife := dnl * ms }, started := true, ls := ls },
-        expected := some "ok", cov := [if ls then "ingress-link-service" else "ingress-direct"] }
+      let s0 : St := { csAdmit := a, csServe := sv, csCap := cap, dnlLife := dnl * ms }
+      { st := { m := s0, rest := List.replicate (n - 1) s0,
+                sp := { csAdmit := a, csServe := sv, dnlLife := dnl * ms, multi := n > 1 }, started := true, ls := ls },
+        expected := some "ok",
+        cov := [if n > 1 then "ingress-link-service-multithread" else if ls then "ingress-link-service" else "ingress-direct"] }
     | _, _, _, _ => bad
   match op.splitOn " " with
-  | ["new", a, sv, cap, dnl, _alg] => newOp a sv cap dnl false
-  | ["new", a, sv, cap, dnl, _alg, "ls"] => newOp a sv cap dnl true
+  | ["new", a, sv, cap, dnl, _alg] => newOp a sv cap dnl false 1
+  | ["new", a, sv, cap, dnl, _alg, "ls"] => newOp a sv cap dnl true 1
+  | ["new", a, sv, cap, dnl, _alg, "ls", n] =>
+    match n.toNat? with
+    | some n => if n ≥ 1 then newOp a sv cap dnl true n else bad
+    | none => bad
   | ["scope", kind, addr] =>
     -- scope classification by the real transport constructors against the specification
     let want := if Spec.scopeLocal kind addr then "L" else "N"
@@ -186,55 +215,59 @@ def stepFw (pid : String) (d : DrvSt) (op : String) (got : String) : StepResult 
       -- "tcp4:ADDR" / "tcp6:ADDR": the scope is the one the specification assigns to that remote address
       let isLocal := if sc.startsWith "tcp" then Spec.scopeLocal ((sc.take 4).toString) ((sc.drop 5).toString) else sc == "L"
       let f : Face := ⟨id, isLocal, lt⟩
-      cfg (step d.m (.addFace f)).1 (Spec.cfgOp d.sp (.addFace f))
+      cfgAll (.addFace f)
     | _, _ => bad
   | ["rmface", id] =>
     match id.toNat? with
-    | some id => cfg (step d.m (.rmFace id)).1 (Spec.cfgOp d.sp (.rmFace id))
+    | some id => cfgAll (.rmFace id)
     | none => bad
   | ["fib", n, f, c] =>
     match Name.ofText n, f.toNat?, c.toNat? with
-    | some n, some f, some c => cfg (step d.m (.fibIns n f c)).1 (Spec.cfgOp d.sp (.fibIns n f c))
+    | some n, some f, some c => cfgAll (.fibIns n f c)
     | _, _, _ => bad
   | ["unfib", n, f] =>
     match Name.ofText n, f.toNat? with
-    | some n, some f => cfg (step d.m (.fibRem n f)).1 (Spec.cfgOp d.sp (.fibRem n f))
+    | some n, some f => cfgAll (.fibRem n f)
     | _, _ => bad
   | ["clrfib", n] =>
     match Name.ofText n with
-    | some n => cfg (step d.m (.fibClr n)).1 (Spec.cfgOp d.sp (.fibClr n))
+    | some n => cfgAll (.fibClr n)
     | none => bad
   | ["strat", n, s] =>
     match Name.ofText n, (if s == "best" then some Strat.best else if s == "multi" then some Strat.multi else none) with
-    | some n, some s => cfg (step d.m (.setStrat n s)).1 (Spec.cfgOp d.sp (.setStrat n s))
+    | some n, some s => cfgAll (.setStrat n s)
     | _, _ => bad
   | ["unstrat", n] =>
     match Name.ofText n with
-    | some n => cfg (step d.m (.unsetStrat n)).1 (Spec.cfgOp d.sp (.unsetStrat n))
+    | some n => cfgAll (.unsetStrat n)
     | none => bad
   | ["region", n] =>
     match Name.ofText n with
-    | some n => cfg (step d.m (.region n)).1 (Spec.cfgOp d.sp (.region n))
+    | some n => cfgAll (.region n)
     | none => bad
   | ["csconf", a, sv] =>
     match parseB a, parseB sv with
-    | some a, some sv => cfg (step d.m (.csConf a sv)).1 (Spec.cfgOp d.sp (.csConf a sv))
+    | some a, some sv => cfgAll (.csConf a sv)
     | _, _ => bad
   | ["cap", n] =>
     match n.toNat? with
-    | some n => cfg (step d.m (.cap n)).1 (Spec.cfgOp d.sp (.cap n))
+    | some n => cfgAll (.cap n)
     | none => bad
   | ["adv", dt] =>
     match dt.toNat? with
     | some dt =>
-      let m := (step d.m (.adv dt)).1
+      let ts' := ts.map fun s => (step s (.adv dt)).1
       let gp := got.splitOn " "
       let sp := { Spec.advance d.sp dt with lastPit := kvNat gp "pit", lastCs := kvNat gp "cs" }
-      { st := { d with m := m, sp := sp },
-        expected := if m.amb then none else some s!"pit={m.pit.length} cs={m.cs.length}",
-        cov := (if m.pit.length < d.m.pit.length then ["adv-pit-expiry"] else []) ++
-               (if m.dnl.length < d.m.dnl.length then ["adv-dnl-reap"] else []) ++
-               (if m.amb then ["adv-ambiguous-timer-order"] else []) ++ ["adv"] }
+      let amb := ts'.any (·.amb)
+      let pitOf (l : List St) : Nat := l.foldl (fun a s => a + s.pit.length) 0
+      let csOf (l : List St) : Nat := l.foldl (fun a s => a + s.cs.length) 0
+      let dnlOf (l : List St) : Nat := l.foldl (fun a s => a + s.dnl.length) 0
+      { st := { d with m := ts'.headD d.m, rest := ts'.drop 1, sp := sp },
+        expected := if amb then none else some s!"pit={pitOf ts'} cs={csOf ts'}",
+        cov := (if pitOf ts' < pitOf ts then ["adv-pit-expiry"] else []) ++
+               (if dnlOf ts' < dnlOf ts then ["adv-dnl-reap"] else []) ++
+               (if amb then ["adv-ambiguous-timer-order"] else []) ++ ["adv"] }
     | none => bad
   | ["I", f, n, cbp, mbf, nonce, hop, life, tok, nh, fh] =>
     match f.toNat?, Name.ofText n, parseB cbp, parseB mbf, optNat nonce, optNat hop, optNat life,
@@ -243,17 +276,23 @@ def stepFw (pid : String) (d : DrvSt) (op : String) (got : String) : StepResult 
       let i : Interest := { name := n, cbp := cbp, mbf := mbf, nonce := nonce, hop := hop, lifeMs := life,
                             tok := tok, nextHop := nh, hints := fh }
       let psends := ((parseGot got).map (·.1)).getD []
+      let orc := parseOracle got
+      -- which forwarding thread: the dispatch rule of the face layer (multi-thread histories), else thread 0
+      let n := ts.length
+      let th := if n > 1 then interestThread n (fun _ => (orc.map (·.2.1)).getD 0) i.name else 0
+      let pre := ts.getD th d.m
       -- oracles resolved from the implementation's answer
       let tie := (psends.filter (!·.isData)).map (·.face)
-      let cands := csPrefixCands d.m.now d.m.cs i
+      let cands := csPrefixCands pre.now pre.cs i
       let pick := match psends.find? (·.isData) with
         | some ps => (cands.findIdx? (·.name == ps.name)).getD 0
         | none =>
           -- no Data came out: if the requester is non-local the walk may have picked a /localhost
           -- Data that the outgoing scope rule dropped
-          if Spec.nonLocal d.m.faces f then (cands.findIdx? (fun c => isLocalhost c.name)).getD 0 else 0
-      let (m, sends) := step d.m (.interest f i tie pick)
-      let (labels, strs) := renderSends d.labels sends
+          if Spec.nonLocal pre.faces f then (cands.findIdx? (fun c => isLocalhost c.name)).getD 0 else 0
+      let (post, sends) := step pre (.interest f i tie pick)
+      let ts' := ts.set th post
+      let (labels, strs) := renderSends d.labels th sends
       let lastTok := psends.foldl (fun acc ps =>
         if !ps.isData && ps.tok.startsWith "T" then
           match (ps.tok.drop 1).toNat? with
@@ -264,10 +303,12 @@ def stepFw (pid : String) (d : DrvSt) (op : String) (got : String) : StepResult 
         | some (ps, pit, cs) => Spec.onInterest d.sp f i ps pit cs
         | none => (d.sp, if isCrash got then [⟨"C01-no-crash", "interest", got⟩, ⟨"C02-no-crash", "interest", got⟩,
                                                ⟨"C09-no-crash", "interest", got⟩] else [])
-      { st := { d with m := m, labels := labels, lastTok := lastTok, sp := sp },
-        expected := if m.amb then none else some (" ; ".intercalate (sortStrings strs) ++ " | " ++ counters m),
+      let amb := ts'.any (·.amb)
+      { st := { d with m := ts'.headD d.m, rest := ts'.drop 1, labels := labels, lastTok := lastTok, sp := sp },
+        expected := if amb then none else some (" ; ".intercalate (sortStrings strs) ++ " | " ++ counters ts' ++
+          (match orc with | some (o, _, _) => " | " ++ o | none => "")),
         spec := fails.filter (keepClause pid),
-        cov := covOfInterest d.m m i sends,
+        cov := covOfInterest pre post i sends,
         nontrivial := !sends.isEmpty }
     | _, _, _, _, _, _, _, _, _, _ => bad
   | ["D", f, n, fresh, c, tok] =>
@@ -275,30 +316,34 @@ def stepFw (pid : String) (d : DrvSt) (op : String) (got : String) : StepResult 
     | some f, some n, some fresh, some c =>
       match parseDTok d tok with
       | none => { st := d, expected := some "skip", cov := ["d-skip"] }
-      | some dt =>
+      | some (dt, tokThread) =>
         let dd : Data := { name := n, freshMs := fresh, content := c, tok := dt }
-        /- the face layer is not transparent for two kinds of Data (fw/face/link-service.go dispatchData):
-           a 6-byte PIT token names its forwarding thread in the first two bytes (only thread 0 exists
-           here), and token-less Data from a local face is handed to the threads of its prefixes of
-           length >= 1 - none for the empty name -/
-        let tokBytes := (bytesOfHex tok).getD []
-        let faceLocal := match faceOf d.m.faces f with | some fc => fc.isLocal | none => false
-        let droppedByFaceLayer := d.ls && (faceOf d.m.faces f).isSome &&
-          ((tokBytes.length == 6 && !(tok.startsWith "T") && !(tok.startsWith "@") && tokBytes.take 2 != [0, 0]) ||
-           (faceLocal && n.isEmpty && (match dt with | .six _ => false | _ => true)))
-        if droppedByFaceLayer then
-          { st := d, expected := some (" | " ++ counters d.m), cov := ["d-dropped-by-face-layer"] }
-        else
-        let (m, sends) := step d.m (.data f dd)
-        let (labels, strs) := renderSends d.labels sends
+        let orc := parseOracle got
+        let nT := ts.length
+        /- ingress through the link service: the dispatch rule decides the thread(s); direct ingress:
+           the harness queues the packet into thread 0 itself -/
+        let ph := (orc.map (·.2.2)).getD []
+        let H : Name → Nat := fun p => ph.getD p.length 0
+        let targets : List Nat := if d.ls then dataThreads nT H n tokThread else [0]
+        let (ts', sends) :=
+          if d.ls then
+            let r := mData ⟨ts⟩ H f dd tokThread
+            (r.1.ts, r.2)
+          else
+            let r := onData d.m f dd
+            (r.1 :: d.rest, r.2)
+        let (labels, strs) := renderSends d.labels 0 sends
         let (sp, fails) := match parseGot got with
           | some (ps, pit, cs) => Spec.onData d.sp f dd (specTok d.sp tok) ps pit cs
           | none => (d.sp, if isCrash got then [⟨"C01-no-crash", "data", got⟩, ⟨"C02-no-crash", "data", got⟩,
                                                  ⟨"C09-no-crash", "data", got⟩] else [])
-        { st := { d with m := m, labels := labels, sp := sp },
-          expected := if m.amb then none else some (" ; ".intercalate (sortStrings strs) ++ " | " ++ counters m),
+        let amb := ts'.any (·.amb)
+        { st := { d with m := ts'.headD d.m, rest := ts'.drop 1, labels := labels, sp := sp },
+          expected := if amb then none else some (" ; ".intercalate (sortStrings strs) ++ " | " ++ counters ts' ++
+            (match orc with | some (o, _, _) => " | " ++ o | none => "")),
           spec := fails.filter (keepClause pid),
-          cov := covOfData d.m dd sends,
+          cov := covOfData (ts.getD (targets.headD 0) d.m) dd sends ++
+                 (if targets.isEmpty then ["d-dropped-by-face-layer"] else if targets.length > 1 then ["d-several-threads"] else []),
           nontrivial := !sends.isEmpty }
     | _, _, _, _ => bad
   | _ => bad
